@@ -3,6 +3,7 @@
 -/
 import RevalModel.Lemmas.NoneType
 import RevalModel.Lemmas.Denote
+import RevalModel.Lemmas.Resolve
 
 namespace Reval.C04
 
@@ -57,6 +58,13 @@ theorem none_eq_right (env : Env) (rp : List Nat) (a : Value) (st : St) (ha : a 
 /-- indexing into None gives None -/
 theorem index_none (i : Index) : Impl.index .none i = .ok .none := by
   cases i <;> simp [Impl.index]
+
+/-- … and so does any access path, however long, once its base (or any prefix of it) is None: `a.b.3.c` is None, with the
+    state and history of evaluating the base — no step fails and none produces data -/
+theorem none_through_any_path (env : Env) (rp : List Nat) (base : Expr) (steps : List Index) (st st1 : St) (ev : List Event)
+    (h : eval env (List.replicate steps.length 0 ++ rp) base st = (.ok .none, st1, ev)) :
+    eval env rp (pathExpr base steps) st = (.ok .none, st1, ev) := by
+  rw [path_resolves, h]; simp [resolve_none]
 
 /-- membership in a None collection is false -/
 theorem contains_none_coll (o : Oracle) (v : Value) : applyBin o .contains .none v = .ok (.bool false) := by
